@@ -119,6 +119,7 @@ func (lh *WorkerLoop) handleRawMessage(msg *interfaces.ConsensusRawMessage) {
 	defer func() {
 		if r := recover(); r != nil { // malformed nested content (votes, proofs) surfaces only when it is read
 			lh.logger.Info("LHFLOW LHMSG WORKERLOOP - IGNORING MESSAGE THAT FAILED TO PARSE: %v", r)
+			verifRecovered(lh, r)
 		}
 	}()
 	lh.logger.Debug("LHFLOW LHMSG WORKERLOOP RECEIVED %v from %v for H=%d V=%d", parsedMessage.MessageType(), parsedMessage.SenderMemberId(), parsedMessage.BlockHeight(), parsedMessage.View())
